@@ -61,6 +61,9 @@ fn config(dir: &PathBuf) -> Config {
     cfg
 }
 
+/// Raised before every scheduler batch; see `check`.
+pub static BATCH_START: std::sync::atomic::AtomicBool = std::sync::atomic::AtomicBool::new(false);
+
 pub fn check(spec: &Spec, tier: &str) -> i32 {
     let t0 = Instant::now();
     let seed: u64 = std::env::var("VERIF_SEED").ok().and_then(|s| s.parse().ok()).unwrap_or(20260921);
@@ -71,7 +74,7 @@ pub fn check(spec: &Spec, tier: &str) -> i32 {
     let dir = verif_root().join("replays").join(format!("{}-schedules", spec.prop));
     let _ = std::fs::create_dir_all(&dir);
     let before: BTreeSet<PathBuf> = std::fs::read_dir(&dir).map(|d| d.flatten().map(|e| e.path()).collect()).unwrap_or_default();
-    std::panic::set_hook(Box::new(|_| {}));
+    if std::env::var("VERIF_SCHED_LOUD").is_err() { std::panic::set_hook(Box::new(|_| {})); }
     let scenario = spec.scenario;
     // three batches: uniformly random schedules, and PCT at depth 2 and 3
     let batches: Vec<(&str, Box<dyn FnOnce() + Send>)> = vec![
@@ -90,6 +93,10 @@ pub fn check(spec: &Spec, tier: &str) -> i32 {
     ];
     let mut failures: Vec<(String, String)> = Vec::new();
     for (name, b) in batches {
+        // the PCT scheduler measures its step bound on the first execution of a batch and
+        // refuses to go on if that execution had no concurrency: scenarios that are sometimes
+        // sequential take their concurrent branch when this flag is up
+        BATCH_START.store(true, std::sync::atomic::Ordering::SeqCst);
         let r = std::panic::catch_unwind(std::panic::AssertUnwindSafe(b));
         if let Err(p) = r {
             let msg = p.downcast_ref::<String>().cloned().or_else(|| p.downcast_ref::<&str>().map(|s| s.to_string())).unwrap_or_else(|| "panic".into());
@@ -99,6 +106,7 @@ pub fn check(spec: &Spec, tier: &str) -> i32 {
     let after: BTreeSet<PathBuf> = std::fs::read_dir(&dir).map(|d| d.flatten().map(|e| e.path()).collect()).unwrap_or_default();
     let new_files: Vec<PathBuf> = after.difference(&before).cloned().collect();
     let mut violations = 0;
+    let mut aborted = 0;
     for (i, (batch, msg)) in failures.iter().enumerate() {
         let first_line = msg.lines().find(|l| l.contains("VIOLATED") || l.contains("assert") || l.contains("panicked")).unwrap_or(msg.lines().next().unwrap_or("")).to_string();
         let sched = new_files.get(i).cloned();
@@ -112,7 +120,8 @@ pub fn check(spec: &Spec, tier: &str) -> i32 {
                     println!("VIOLATION property={} replay={}", spec.prop, path.display());
                     violations += 1;
                 } else {
-                    println!("warning: schedule {} did not reproduce in a fresh process; counted as unreproduced", path.display());
+                    println!("warning: schedule {} did not reproduce in a fresh process; counted as unreproduced (batch {batch} stopped early: {})", path.display(), first_line.chars().take(160).collect::<String>());
+                    aborted += 1;
                 }
             }
             None => {
@@ -133,7 +142,7 @@ pub fn check(spec: &Spec, tier: &str) -> i32 {
             "evaluations": evals, "distinct_nontrivial": cases, "rule": spec.rule, "samples": samples,
             "runs_per_hour": if wall > 0.0 { (evals as f64 / wall * 3600.0) as u64 } else { 0 },
             "simulated_seconds": 0.0,
-            "schedulers": {"random": iters / 2, "pct_depth2": iters / 4, "pct_depth3": iters / 4},
+            "schedulers": {"random": iters / 2, "pct_depth2": iters / 4, "pct_depth3": iters / 4}, "batches_stopped_early_without_a_reproducible_schedule": aborted,
             "faults": {}, "probes": counters, "components": {"real": spec.real, "stub": spec.stub},
         }
     });
